@@ -74,7 +74,8 @@ TEXTS = {
                     'TLC finds a torn read without it (negative control run on every check). On the real code, 16-core stress: writers '
                     'keep (a, b, s) = (k, 2k, "v"k) across three columns of different kinds (also two rows of different blocks in one '
                     'transaction); readers (QueryAt, Range, filtered Range) report the distinct triples read inside one callback (millions '
-                    'of reads per run), each must be a committed version; deterministic probes: with a writer parked inside the logger '
+                    'of reads per run), each must be a committed version (Ascend readers too: as built they run without the latch and do see torn rows - '
+                    'known finding D-ascend-no-latch, excused exactly for them); deterministic probes: with a writer parked inside the logger '
                     'callback a reader of that block must not complete, a reader of another block must.',
             'note': _NOTE + ' The torn-read search is statistical (real parallelism); the probes are deterministic.', 'technique': _T},
     'C11': {'text': 'NoCollision, OccupiedIsLive, FillAccounting, NoStaleValues are model-checked for 2 concurrent writers inserting '
